@@ -137,7 +137,7 @@ end
 theorem plain_prim (o : TraceOpts) (hd : o.stringDictionaryEncoding = false) (p : Prim) : plainDT (primDT o p) = true := by
   cases p with
   | int t => cases t <;> rfl
-  | str => simp only [primDT, hd, strDT, Bool.false_eq_true, if_false]; split <;> rfl
+  | str | strRef | cowStr => simp only [primDT, hd, strDT, Bool.false_eq_true, if_false]; split <;> rfl
   | _ => rfl
 
 mutual
